@@ -143,9 +143,111 @@ def run (j : Json) : Except String Json := do
     | none => Json.null
   return obj [("steps", Json.arr out), ("hist0", hist)]
 
+/-! `lset.rec`: `{"sets":[[v..]..], "attrs":[[v,[{"g":h}|{"gs":[h..]}..]]..], "recf":null|[v..],
+"fuel":n, "ops":[..]}` runs a history on the recursive-iterator model (`recStep`/`recNext`/
+`recDrain` over an `RWorld`).  Ops: `iter{rev}`, `next{k}` (answer: `out` = events and yield of
+this call, `r`), `edit{g, e:<flat op>}` (answer: `r`, `L` = all sequences), `drain{k}` (answer: `out`,
+`r`), `spec{rev,g}` (answer: `spec` = `specTop`, `out`/`r` = `recDrain` of a fresh iterator). -/
+
+def outJ : Out → Json
+  | .yield g v => Json.arr #[Json.str "y", toJson g, toJson v]
+  | .enter g => Json.arr #[Json.str "en", toJson g]
+  | .exit g => Json.arr #[Json.str "ex", toJson g]
+  | .pred v => Json.arr #[Json.str "p", toJson v]
+
+def outsJ (os : List Out) : Json := Json.arr (os.map outJ).toArray
+
+def parseOp (j : Json) : Except String Op := do
+  let o ← getStr j "o"
+  match o with
+  | "append" => return .append (← getNat j "v")
+  | "extend" => return .extend (← getNats j "vs")
+  | "ia" => return .insertAfter (← getNat j "a") (← getNats j "vs")
+  | "ib" => return .insertBefore (← getNat j "a") (← getNats j "vs")
+  | "rm" => return .remove (← getNat j "v")
+  | _ => throw s!"unknown edit {o}"
+
+def parseAttr (j : Json) : Except String Attr :=
+  match j.getObjValAs? Nat "g" with
+  | .ok h => return .graph h
+  | .error _ => do return .graphs (← getNats j "gs")
+
+structure RecSt where
+  w : RWorld
+  its : Array (Dir × List RFrame)
+
+def recOp (fuel : Nat) (st : RecSt) (j : Json) : Except String (RecSt × Json) := do
+  let o ← getStr j "o"
+  match o with
+  | "iter" =>
+    let rev ← getBool j "rev"
+    let d := if rev then Dir.rev else Dir.fwd
+    return ({ st with its := st.its.push (d, recStart 0) }, obj [("r", toJson st.its.size)])
+  | "next" =>
+    let k ← getNat j "k"
+    match st.its[k]? with
+    | some (d, stack) =>
+      let r := recNext st.w d fuel stack
+      return ({ st with its := st.its.setIfInBounds k (d, r.1) },
+        obj [("out", outsJ r.2.1), ("r", resJ r.2.2)])
+    | none => throw "bad iterator"
+  | "drain" =>
+    let k ← getNat j "k"
+    match st.its[k]? with
+    | some (d, stack) =>
+      let r := recDrain st.w d fuel stack
+      return ({ st with its := st.its.setIfInBounds k (d, []) },
+        obj [("out", outsJ r.1), ("r", resJ r.2)])
+    | none => throw "bad iterator"
+  | "edit" =>
+    let g ← getNat j "g"
+    let e ← j.getObjVal? "e"
+    let op ← parseOp e
+    let r := st.w.applyAt g op
+    return ({ st with w := r.1 },
+      obj [("r", Json.bool r.2), ("L", Json.arr (r.1.sets.map (fun s => natsJ (toList s))).toArray),
+           ("inv", Json.bool (r.1.sets.all invOk))])
+  | "spec" =>
+    let rev ← getBool j "rev"
+    let g ← getNat j "g"
+    let d := if rev then Dir.rev else Dir.fwd
+    let r := recDrain st.w d fuel (recStart g)
+    return (st, obj [("spec", outsJ (specTop st.w d (st.w.sets.length + 1) g)),
+      ("out", outsJ r.1), ("r", resJ r.2)])
+  | _ => throw s!"unknown op {o}"
+
+def runRec (j : Json) : Except String Json := do
+  let setsJ ← getArr j "sets"
+  let mut sets : List LSet := []
+  for sj in setsJ do
+    let vs : Array Nat ← fromJson? sj
+    sets := sets ++ [(extend empty vs.toList).1]
+  let attrsJ ← getArr j "attrs"
+  let mut attrs : List (Nat × List Attr) := []
+  for aj in attrsJ do
+    let pair : Array Json ← fromJson? aj
+    match pair[0]?, pair[1]? with
+    | some vj, some lj =>
+      let v : Nat ← fromJson? vj
+      let items : Array Json ← fromJson? lj
+      let as ← items.toList.mapM parseAttr
+      attrs := attrs ++ [(v, as)]
+    | _, _ => throw "bad attrs entry"
+  let recf : Option (List Nat) := (getNats j "recf").toOption
+  let fuel := (j.getObjValAs? Nat "fuel").toOption.getD 100000
+  let ops ← getArr j "ops"
+  let mut st : RecSt := { w := ⟨sets, attrs, recf⟩, its := #[] }
+  let mut out : Array Json := #[]
+  for o in ops do
+    let (st', r) ← recOp fuel st o
+    st := st'
+    out := out.push r
+  return obj [("steps", Json.arr out)]
+
 def handle : Handler := fun m j =>
   match m with
   | "lset.run" => some (run j)
+  | "lset.rec" => some (runRec j)
   | _ => none
 
 end IrVerif.Drive.LinkedSet
